@@ -193,3 +193,10 @@ def build(sess):
     sess.explanation = ('max_rate_t3 is executed symbolically against the rate_t3 contract; the bracket clauses are obligations on every '
                         'path; the |jerk| shortfall bound is proved by a staged lemma chain (vertex form, reduced parabola claim on '
                         'integer ticks, scaling), each stage its own obligation.')
+
+
+def fallback(sess):
+    r = native('n_c02', 'search_max', {'n': 20000})
+    r['what'] = 'n_c02.search_max'
+    r.setdefault('tried', 20000)
+    return [r]
